@@ -152,6 +152,13 @@ cell_value(int wseq, int l, uint8 *out)
         for (int b = 1; b < A.c.esize; b++)
             out[b] = 0;
         out[0] &= 0x7f;
+        if (A.c.cparam == 1) {
+            /* sign-extended variant: the 7-bit field holds -64..63 and its sign bit lies below the most significant byte */
+            int16 v = (int16)out[0];
+            if (v & 0x40)
+                v = (int16)(v - 128);
+            memcpy(out, &v, 2);
+        }
     }
 }
 
@@ -237,7 +244,7 @@ open_dataset(const dcfg *c)
                 return -3;
             break;
         case L_NBIT:
-            if (SDsetnbitdataset(sds, 6, 7, 0, 0) == FAIL)
+            if (SDsetnbitdataset(sds, 6, 7, c->cparam == 1 ? TRUE : FALSE, 0) == FAIL)
                 return -3;
             break;
         case L_EXT:
@@ -1056,6 +1063,9 @@ shapes_c04(int thorough)
                 dcfg c   = b;
                 c.layout = L_NBIT;
                 c.nt     = DFNT_INT16;
+                c.cparam = 0;
+                add_plan(&c);
+                c.cparam = 1; /* with sign extension, negative values */
                 add_plan(&c);
             }
             for (int off = 0; off < 2; off++) {
